@@ -1,8 +1,663 @@
 import QP.Base
+/-!
+# C20 — hardware discretisation
+
+Model of
+* `qupulse.hardware.util`: `_voltage_to_uint16_numpy`, `_voltage_to_uint16_numba`, `voltage_to_uint16`,
+  `get_waveform_length`, `get_sample_times`;
+* `qupulse.hardware.awgs.base.ProgramEntry._sample_waveforms`;
+* `qupulse.utils.performance`: `_time_windows_to_samples_{numpy,numba}`,
+  `_shrink_overlapping_windows_{numpy,numba}`, `_average_windows_{numpy,numba}`.
+
+Numbers are exact (`Rat`, `Int`, `Nat`); `numpy.rint` / Python `round` are round-half-even (`rne`).
+Every variant mirrors the algorithm of the Python function of the same name.
+`shrinkNumpy` models the code **with `fixes/PF-20.diff` applied** (`shrinkNumpyPinned` keeps the
+behaviour of the pinned tree); `averageNumba` keeps the defective sweep of the pinned tree (PF-23, open).
+-/
 namespace QP.C20
+
+inductive Err where
+  | valueError     -- `ValueError`
+  | assertion      -- `AssertionError`
+  | keyError       -- `KeyError` (channel not defined in the waveform)
+  | zeroDivision   -- `ZeroDivisionError`
+  | domain         -- outside the modelled domain (negative window, zero amplitude in `_sample_waveforms`)
+  deriving Repr, BEq, DecidableEq
+
+/-- absolute value, `numpy.abs` -/
+def rabs (x : Rat) : Rat := if x < 0 then -x else x
+
+/-- `numpy.rint` and Python's `round(x)`: round to nearest, ties to even -/
+def rne (x : Rat) : Int :=
+  let f := x.floor
+  let d := x - (f : Rat)
+  if d < (1 : Rat) / 2 then f else if (1 : Rat) / 2 < d then f + 1 else if f % 2 = 0 then f else f + 1
+
+/-- `mapM` for `Except Err` with the evaluation order of a Python loop (first error wins) -/
+def mapE {α β} (f : α → Except Err β) : List α → Except Err (List β)
+  | [] => .ok []
+  | a :: as =>
+    match f a with
+    | .error e => .error e
+    | .ok b =>
+      match mapE f as with
+      | .error e => .error e
+      | .ok bs => .ok (b :: bs)
+
+/-! ## `voltage_to_uint16` -/
+
+/-- `2 ** resolution - 1` -/
+def levels (r : Nat) : Int := 2 ^ r - 1
+
+/-- `(2 ** resolution - 1) / (2 * output_amplitude)` -/
+def scale (amp : Rat) (r : Nat) : Rat := (levels r : Rat) / (2 * amp)
+
+/-- `.astype(numpy.uint16)` of an integral float (two's complement wrap) -/
+def toUint16 (c : Int) : Int := c % 65536
+
+/-- `numpy.uint16(numpy.rint((v - offset + amplitude) * scale))` -/
+def codeOf (amp off : Rat) (r : Nat) (v : Rat) : Int :=
+  toUint16 (rne ((v - off + amp) * scale amp r))
+
+/-- `numpy.abs(v - offset) > amplitude` -/
+def outOfRange (amp off v : Rat) : Bool := decide (amp < rabs (v - off))
+
+/-- `_voltage_to_uint16_numpy`: range test on the whole array first, then scale and round -/
+def codesNumpy (amp off : Rat) (r : Nat) (vs : List Rat) : Except Err (List Int) :=
+  if vs.any (outOfRange amp off) then .error .valueError
+  else if amp = 0 then .error .zeroDivision
+  else .ok (vs.map (codeOf amp off r))
+
+/-- the element loop of `_voltage_to_uint16_numba`: flag and converted values -/
+def numbaLoop (amp off : Rat) (r : Nat) : List Rat → Bool × List Int
+  | [] => (false, [])
+  | v :: vs =>
+    let rest := numbaLoop amp off r vs
+    (outOfRange amp off v || rest.1, codeOf amp off r v :: rest.2)
+
+/-- `_voltage_to_uint16_numba`: scale first, convert everything, raise at the end -/
+def codesNumba (amp off : Rat) (r : Nat) (vs : List Rat) : Except Err (List Int) :=
+  if amp = 0 then .error .zeroDivision
+  else
+    let res := numbaLoop amp off r vs
+    if res.1 then .error .valueError else .ok res.2
+
+/-- `voltage_to_uint16` (the public wrapper; `useNumba` is `numba is not None`) -/
+def voltageToUint16 (useNumba : Bool) (amp off : Rat) (r : Int) (vs : List Rat) : Except Err (List Int) :=
+  if r < 1 then .error .valueError
+  else if useNumba then codesNumba amp off r.toNat vs else codesNumpy amp off r.toNat vs
+
+/-- size of one code step in volts -/
+def step (amp : Rat) (r : Nat) : Rat := 2 * amp / (levels r : Rat)
+
+/-- what the property demands of one code `c` for an in-range voltage `v` -/
+def CodeSpec (amp off : Rat) (r : Nat) (v : Rat) (c : Int) : Prop :=
+  0 ≤ c ∧ c ≤ levels r ∧ rabs ((c : Rat) * step amp r - (v - off + amp)) ≤ step amp r / 2
+
+instance (amp off : Rat) (r : Nat) (v : Rat) (c : Int) : Decidable (CodeSpec amp off r v c) := by
+  unfold CodeSpec; infer_instance
+
+/-- monotone: a larger voltage never gets a smaller code -/
+def MonotoneCodes (vs : List Rat) (cs : List Int) : Prop :=
+  ∀ p ∈ vs.zip cs, ∀ q ∈ vs.zip cs, p.1 ≤ q.1 → p.2 ≤ q.2
+
+instance (vs : List Rat) (cs : List Int) : Decidable (MonotoneCodes vs cs) := by
+  unfold MonotoneCodes; infer_instance
+
+/-- the property for one call: out-of-range input is rejected, in-range input is converted
+elementwise within half a step, into `[0, 2^r-1]`, monotonically -/
+def CodesSpec (amp off : Rat) (r : Nat) (vs : List Rat) : Except Err (List Int) → Prop
+  | .error e => e = .valueError ∧ ∃ v ∈ vs, amp < rabs (v - off)
+  | .ok cs => (∀ v ∈ vs, rabs (v - off) ≤ amp) ∧ cs.length = vs.length ∧
+      (∀ p ∈ vs.zip cs, CodeSpec amp off r p.1 p.2) ∧ MonotoneCodes vs cs
+
+instance (amp off : Rat) (r : Nat) (vs : List Rat) (o : Except Err (List Int)) :
+    Decidable (CodesSpec amp off r vs o) := by
+  cases o <;> (unfold CodesSpec; infer_instance)
+
+/-- executable twin of `CodesSpec` (the judge for exact inputs) -/
+def codesSpecB (amp off : Rat) (r : Nat) (vs : List Rat) (o : Except Err (List Int)) : Bool :=
+  decide (CodesSpec amp off r vs o)
+
+/-- judge with a relative tolerance `tol` for inputs on which the float computation is inexact:
+a voltage whose distance to the range end is below `tol·amp` may go either way, a scaled value within
+`tol·max(1,|y|)` of a half-integer may be rounded to either neighbour.  `tol = 0` is `codesSpecB`. -/
+def judgeCodes (amp off : Rat) (r : Nat) (tol : Rat) (vs : List Rat) (o : Option (List Int)) : String :=
+  let surelyOut := vs.any (fun v => decide (amp + tol * amp < rabs (v - off)))
+  let surelyIn := vs.all (fun v => decide (rabs (v - off) ≤ amp - tol * amp))
+  match o with
+  | none => if surelyIn then "rejected-in-range-input" else "ok"
+  | some cs =>
+    if surelyOut then "accepted-out-of-range-input"
+    else if cs.length ≠ vs.length then "length"
+    else if (vs.zip cs).any (fun p => decide (p.2 < 0 ∨ levels r < p.2)) then "code-outside-0..2^r-1"
+    else if (vs.zip cs).any (fun p =>
+        let y := (p.1 - off + amp) * scale amp r
+        decide ((1 : Rat) / 2 + tol * (if rabs y < 1 then 1 else rabs y) < rabs ((p.2 : Rat) - y)))
+      then "more-than-half-a-step"
+    else if ¬ MonotoneCodes vs cs then "not-monotone"
+    else "ok"
+
+/-! ## `get_waveform_length`, `get_sample_times` -/
+
+/-- `get_waveform_length(waveform, sample_rate, tolerance)` on `waveform.duration = dur` -/
+def waveformLength (sr tol : Rat) (dur : Rat) : Except Err Int :=
+  let seg := dur * sr
+  let n := rne seg
+  if tol < rabs (seg - (n : Rat)) then .error .valueError
+  else if n ≤ 0 then .error .valueError
+  else .ok n
+
+/-- `numpy.max(segment_lengths)` -/
+def maxLen : List Int → Int
+  | [] => 0
+  | n :: ns => max n (maxLen ns)
+
+/-- `numpy.arange(n, dtype=float) / float(sample_rate)` -/
+def timeArray (sr : Rat) (n : Nat) : List Rat := (List.range n).map (fun (k : Nat) => (k : Rat) / sr)
+
+/-- `get_sample_times(waveforms, sample_rate, tolerance)` on the list of durations -/
+def sampleTimes (sr tol : Rat) (durs : List Rat) : Except Err (List Rat × List Int) :=
+  if durs.isEmpty then .error .assertion
+  else match mapE (waveformLength sr tol) durs with
+    | .error e => .error e
+    | .ok lens => .ok (timeArray sr (maxLen lens).toNat, lens)
+
+/-! ## `ProgramEntry._sample_waveforms` -/
+
+abbrev Chan := Nat
+
+/-- what `_sample_waveforms` uses of a waveform: duration, defined channels, voltage over time -/
+structure Wf where
+  dur : Rat
+  defined : Chan → Bool
+  val : Chan → Rat → Rat
+
+/-- `Waveform.get_sampled(channel, sample_times, output_array=…)` for a monotone time array -/
+def Wf.getSampled (w : Wf) (ch : Chan) (ts : List Rat) : Except Err (List Rat) :=
+  match ts.head?, ts.getLast? with
+  | some t0, some t1 =>
+    if t0 < 0 ∨ w.dur < t1 then .error .valueError
+    else if !w.defined ch then .error .keyError
+    else .ok (ts.map (w.val ch))
+  | _, _ => .ok []
+
+/-- voltage transformations the harness can express (Python callables on arrays) -/
+inductive Trafo where
+  | affine (a b : Rat)   -- `lambda v: a * v + b`
+  | abs                  -- `numpy.abs`
+  | square               -- `lambda v: v * v`
+  deriving Repr, BEq, DecidableEq
+
+def Trafo.apply : Trafo → Rat → Rat
+  | .affine a b, v => a * v + b
+  | .abs, v => rabs v
+  | .square, v => v * v
+
+/-- `trafo(sampled)`; `None` is the identity -/
+def applyTrafo : Option Trafo → Rat → Rat
+  | none, v => v
+  | some t, v => t.apply v
+
+/-- one output of the driver: channel id (or `None`), transformation, amplitude, offset -/
+structure ChanCfg where
+  chan : Option Chan
+  trafo : Option Trafo
+  amp : Rat
+  off : Rat
+
+structure Sampled where
+  channels : List (Option (List Rat))
+  markers : List (Option (List Bool))
+  deriving BEq, DecidableEq
+
+/-- body of the channel loop for one waveform -/
+def sampleChannel (w : Wf) (wfTime : List Rat) (c : ChanCfg) : Except Err (Option (List Rat)) :=
+  match c.chan with
+  | none => .ok none                      -- `_sample_empty_channel`
+  | some ch =>
+    match w.getSampled ch wfTime with
+    | .error e => .error e
+    | .ok raw =>
+      if c.amp = 0 then .error .domain      -- numpy would produce inf/nan; amplitude > 0 is required
+      else .ok (some (raw.map (fun v => (applyTrafo c.trafo v - c.off) / c.amp)))
+
+/-- body of the marker loop for one waveform -/
+def sampleMarker (w : Wf) (wfTime : List Rat) (m : Option Chan) : Except Err (Option (List Bool)) :=
+  match m with
+  | none => .ok none                      -- `_sample_empty_marker`
+  | some ch =>
+    match w.getSampled ch wfTime with
+    | .error e => .error e
+    | .ok raw => .ok (some (raw.map (fun v => decide (v ≠ 0))))
+
+/-- body of the waveform loop: `time_array[:segment_length]`, channels, then markers -/
+def sampleOne (cfgs : List ChanCfg) (marks : List (Option Chan)) (times : List Rat)
+    (wn : Wf × Int) : Except Err Sampled :=
+  let wfTime := times.take wn.2.toNat
+  match mapE (sampleChannel wn.1 wfTime) cfgs with
+  | .error e => .error e
+  | .ok chans =>
+    match mapE (sampleMarker wn.1 wfTime) marks with
+    | .error e => .error e
+    | .ok ms => .ok ⟨chans, ms⟩
+
+/-- `ProgramEntry._sample_waveforms(waveforms)` -/
+def sampleWaveforms (sr tol : Rat) (cfgs : List ChanCfg) (marks : List (Option Chan))
+    (wfs : List Wf) : Except Err (List Sampled) :=
+  match sampleTimes sr tol (wfs.map (·.dur)) with
+  | .error e => .error e
+  | .ok (times, lens) => mapE (sampleOne cfgs marks times) (wfs.zip lens)
+
+/-- the formula of the property, stated directly: sample `k` of output `c` of a waveform is
+`(T(v(k / sample_rate)) - offset) / amplitude`, a marker sample is `v(k / sample_rate) ≠ 0` -/
+def specOne (sr : Rat) (cfgs : List ChanCfg) (marks : List (Option Chan)) (w : Wf) : Sampled :=
+  let n := (rne (w.dur * sr)).toNat
+  { channels := cfgs.map (fun c => c.chan.map (fun ch =>
+      (List.range n).map (fun (k : Nat) => (applyTrafo c.trafo (w.val ch ((k : Rat) / sr)) - c.off) / c.amp)))
+    markers := marks.map (fun m => m.map (fun ch =>
+      (List.range n).map (fun (k : Nat) => decide (w.val ch ((k : Rat) / sr) ≠ 0)))) }
+
+def sampleSpec (sr : Rat) (cfgs : List ChanCfg) (marks : List (Option Chan)) (wfs : List Wf) :
+    List Sampled :=
+  wfs.map (specOne sr cfgs marks)
+
+/-! ## `time_windows_to_samples` -/
+
+/-- a window in time units: `(begin, length)` -/
+abbrev TWin := Rat × Rat
+/-- a window in samples: `(begin, length)` -/
+abbrev SWin := Int × Int
+
+/-- `round(begin * sample_rate)` / `numpy.rint`, and `numpy.floor(length * sample_rate)` -/
+def conv (sr : Rat) (w : TWin) : SWin := (rne (w.1 * sr), (w.2 * sr).floor)
+
+/-- `_is_monotonic_numba` -/
+def isMonotone : List Rat → Bool
+  | [] => true
+  | [_] => true
+  | a :: b :: rest => decide (a ≤ b) && isMonotone (b :: rest)
+
+/-- `numpy.argsort(begins)` as a stable sort by begin.  numpy does not specify the order of equal
+keys; the correspondence therefore compares windows with equal begin as a multiset. -/
+def sortByBegin {β} (ws : List (Rat × β)) : List (Rat × β) :=
+  ws.mergeSort (fun a b => decide (a.1 ≤ b.1))
+
+/-- negative times wrap in the `uint64` cast (numpy) or raise `OverflowError` (plain Python):
+outside the modelled domain -/
+def negativeWindow (ws : List TWin) : Bool := ws.any (fun w => decide (w.1 < 0 ∨ w.2 < 0))
+
+/-- `_time_windows_to_samples_numpy`: convert everything, then permute by `argsort(begins)` -/
+def w2sNumpy (sr : Rat) (ws : List TWin) : Except Err (List SWin) :=
+  if negativeWindow ws ∨ sr < 0 then .error .domain
+  else .ok ((sortByBegin (ws.map (fun w => (w.1, conv sr w)))).map (·.2))
+
+/-- `_time_windows_to_samples_numba`: monotone fast path, else permute by `argsort(begins)` and convert -/
+def w2sNumba (sr : Rat) (ws : List TWin) : Except Err (List SWin) :=
+  if negativeWindow ws ∨ sr < 0 then .error .domain
+  else if isMonotone (ws.map (·.1)) then .ok (ws.map (conv sr))
+  else .ok ((sortByBegin ws).map (conv sr))
+
+/-- the property: the windows ordered by begin, begins rounded to nearest, lengths rounded down -/
+def W2sSpec (sr : Rat) (ws : List TWin) (out : List SWin) : Prop :=
+  out.Perm (ws.map (conv sr)) ∧ out.Pairwise (fun a b => a.1 ≤ b.1)
+
+instance (sr : Rat) (ws : List TWin) (out : List SWin) : Decidable (W2sSpec sr ws out) := by
+  unfold W2sSpec; infer_instance
+
+def w2sSpecB (sr : Rat) (ws : List TWin) (out : List SWin) : Bool := decide (W2sSpec sr ws out)
+
+/-! ## `shrink_overlapping_windows` -/
+
+/-- a window in samples (`uint64`): `(begin, length)` -/
+abbrev NWin := Nat × Nat
+
+def NWin.stop (w : NWin) : Nat := w.1 + w.2
+
+/-- `numpy.maximum(ends[:-1] - begins[1:], 0)` continued from the previous window's end -/
+def overlapsFrom (prevEnd : Nat) : List NWin → List Nat
+  | [] => []
+  | w :: ws => (prevEnd - w.1) :: overlapsFrom w.stop ws
+
+/-- the `overlaps` array of `_shrink_overlapping_windows_numpy` (`overlaps[0] = 0`) -/
+def overlaps : List NWin → List Nat
+  | [] => []
+  | w :: ws => 0 :: overlapsFrom w.stop ws
+
+/-- `begins += overlaps; lengths -= overlaps` -/
+def applyOverlaps (ov : List Nat) (ws : List NWin) : List NWin :=
+  List.zipWith (fun o w => (w.1 + o, w.2 - o)) ov ws
+
+/-- `_shrink_overlapping_windows_numpy` **with fixes/PF-20.diff**:
+`numpy.any((overlaps > 0) & (overlaps >= lengths))` -/
+def shrinkNumpy (ws : List NWin) : Except Err (Bool × List NWin) :=
+  let ov := overlaps ws
+  if (ov.zip ws).any (fun p => decide (0 < p.1 ∧ p.2.2 ≤ p.1)) then .error .valueError
+  else if ov.any (fun o => decide (0 < o)) then .ok (true, applyOverlaps ov ws)
+  else .ok (false, ws)
+
+/-- `_shrink_overlapping_windows_numpy` of the pinned tree: `numpy.any(overlaps >= lengths)` (PF-20) -/
+def shrinkNumpyPinned (ws : List NWin) : Except Err (Bool × List NWin) :=
+  let ov := overlaps ws
+  if (ov.zip ws).any (fun p => decide (p.2.2 ≤ p.1)) then .error .valueError
+  else if ov.any (fun o => decide (0 < o)) then .ok (true, applyOverlaps ov ws)
+  else .ok (false, ws)
+
+/-- the loop of `_shrink_overlapping_windows_numba` from window `idx + 1` on; `prevEnd` is
+`begins[idx] + lengths[idx]` read from the (already updated) arrays -/
+def shrinkNumbaLoop (prevEnd : Nat) (shrank : Bool) : List NWin → Except Err (Bool × List NWin)
+  | [] => .ok (shrank, [])
+  | w :: ws =>
+    if w.1 < prevEnd then
+      let overlap := prevEnd - w.1
+      if overlap < w.2 then
+        let w' : NWin := (w.1 + overlap, w.2 - overlap)
+        match shrinkNumbaLoop w'.stop true ws with
+        | .error e => .error e
+        | .ok (s, out) => .ok (s, w' :: out)
+      else .error .valueError
+    else
+      match shrinkNumbaLoop w.stop shrank ws with
+      | .error e => .error e
+      | .ok (s, out) => .ok (s, w :: out)
+
+/-- `_shrink_overlapping_windows_numba` -/
+def shrinkNumba : List NWin → Except Err (Bool × List NWin)
+  | [] => .ok (false, [])
+  | w :: ws =>
+    match shrinkNumbaLoop w.stop false ws with
+    | .error e => .error e
+    | .ok (s, out) => .ok (s, w :: out)
+
+/-- the property: no end moves, and afterwards every window ends before any later one begins -/
+def ShrinkSpec (ws out : List NWin) : Prop :=
+  out.map NWin.stop = ws.map NWin.stop ∧ out.Pairwise (fun a b => a.stop ≤ b.1)
+
+instance (ws out : List NWin) : Decidable (ShrinkSpec ws out) := by
+  unfold ShrinkSpec; infer_instance
+
+def shrinkSpecB (ws out : List NWin) : Bool := decide (ShrinkSpec ws out)
+
+/-! ## `average_windows` -/
+
+/-- `numpy.searchsorted(time, x)` (side `left`) on a non-decreasing `time`: index of the first
+element that is not smaller than `x` -/
+def searchsorted : List Rat → Rat → Nat
+  | [], _ => 0
+  | t :: ts, x => if t < x then searchsorted ts x + 1 else 0
+
+/-- `while start < end: result += values[start]; start += 1` for one window, `k = end - start` -/
+def accLoop (values : List Rat) : Nat → Nat → Rat → Rat
+  | _, 0, acc => acc
+  | start, k + 1, acc => accLoop values (start + 1) k (acc + values.getD start 0)
+
+/-- one window of `_average_windows_numpy` (`none` is NaN) -/
+def averageNumpyOne (time values : List Rat) (w : Rat × Rat) : Option Rat :=
+  let s := searchsorted time w.1
+  let e := searchsorted time w.2
+  if s < e then some (accLoop values s (e - s) 0 / ((e - s : Nat) : Rat)) else none
+
+/-- `_average_windows_numpy(time, values, begins, ends)`; windows are `(begin, end)` -/
+def averageNumpy (time values : List Rat) (ws : List (Rat × Rat)) : List (Option Rat) :=
+  ws.map (averageNumpyOne time values)
+
+/-- a window of `_average_windows_numba` with its running sum and count -/
+structure Acc where
+  b : Rat
+  e : Rat
+  sum : Rat
+  cnt : Nat
+  deriving Repr, BEq, DecidableEq
+
+/-- `result[idx] = nan if count == 0 else result[idx] / count` -/
+def Acc.finalize (a : Acc) : Option Rat := if a.cnt = 0 then none else some (a.sum / (a.cnt : Rat))
+
+def Acc.add (a : Acc) (v : Rat) : Acc := { a with sum := a.sum + v, cnt := a.cnt + 1 }
+
+/-- `while start < n_windows and ends[start] <= t:` finalise; the list is the windows from `start` on -/
+def dropFinished (t : Rat) : List Acc → List (Option Rat) × List Acc
+  | [] => ([], [])
+  | a :: as =>
+    if a.e ≤ t then
+      let r := dropFinished t as
+      (a.finalize :: r.1, r.2)
+    else ([], a :: as)
+
+/-- `while idx < n_windows and begins[idx] <= t:` add the sample -/
+def addWhile (t v : Rat) : List Acc → List Acc
+  | [] => []
+  | a :: as => if a.b ≤ t then a.add v :: addWhile t v as else a :: as
+
+/-- the sample loop of `_average_windows_numba` and the final loop over the remaining windows -/
+def numbaSweep : List (Rat × Rat) → List Acc → List (Option Rat)
+  | [], rem => rem.map Acc.finalize
+  | (t, v) :: samples, rem =>
+    let r := dropFinished t rem
+    r.1 ++ numbaSweep samples (addWhile t v r.2)
+
+/-- `_average_windows_numba(time, values, begins, ends)` (pinned tree, PF-23) -/
+def averageNumba (time values : List Rat) (ws : List (Rat × Rat)) : List (Option Rat) :=
+  numbaSweep (time.zip values) (ws.map (fun w => ⟨w.1, w.2, 0, 0⟩))
+
+/-- `average_windows`: the two shape assertions, then one of the variants -/
+def averageWindows (useNumba : Bool) (time values : List Rat) (ws : List (Rat × Rat)) :
+    Except Err (List (Option Rat)) :=
+  if values.length ≠ time.length then .error .assertion
+  else .ok (if useNumba then averageNumba time values ws else averageNumpy time values ws)
+
+/-- what an average over a window means: the mean of the samples with `begin ≤ t < end` -/
+def averageSpecOne (time values : List Rat) (w : Rat × Rat) : Option Rat :=
+  let sel := (time.zip values).filter (fun p => decide (w.1 ≤ p.1) && decide (p.1 < w.2))
+  if sel.isEmpty then none else some ((sel.map (·.2)).sum / (sel.length : Rat))
+
+def averageSpec (time values : List Rat) (ws : List (Rat × Rat)) : List (Option Rat) :=
+  ws.map (averageSpecOne time values)
+
+/-- non-decreasing -/
+def Sorted (xs : List Rat) : Prop := xs.Pairwise (· ≤ ·)
+
+instance (xs : List Rat) : Decidable (Sorted xs) := by unfold Sorted; infer_instance
+
+/-- PF-23 (open): the class of inputs on which `_average_windows_numba` may differ from
+`_average_windows_numpy`: begins or ends of the windows are not in non-decreasing order -/
+def InKnownClassPF23 (ws : List (Rat × Rat)) : Prop :=
+  ¬ (Sorted (ws.map (·.1)) ∧ Sorted (ws.map (·.2)))
+
+instance (ws : List (Rat × Rat)) : Decidable (InKnownClassPF23 ws) := by
+  unfold InKnownClassPF23; infer_instance
+
+/-! ## Line protocol -/
 open Sexp
 
+def errS : Err → Sexp
+  | .valueError => .list [.atom "error", .atom "value_error"]
+  | .assertion => .list [.atom "error", .atom "assertion"]
+  | .keyError => .list [.atom "error", .atom "key_error"]
+  | .zeroDivision => .list [.atom "error", .atom "zero_division"]
+  | .domain => .list [.atom "error", .atom "domain"]
+
+def rats? (s : Sexp) : Option (List Rat) := listOf? rat? s
+def ints? (s : Sexp) : Option (List Int) := listOf? int? s
+
+def pair? {α β : Type} (f : Sexp → Option α) (g : Sexp → Option β) : Sexp → Option (α × β)
+  | .list [a, b] => do pure (← f a, ← g b)
+  | _ => none
+
+def optAtom? {α} (f : Sexp → Option α) : Sexp → Option (Option α)
+  | .atom "none" => some none
+  | s => (f s).map some
+
+def ofOpt {α} (f : α → Sexp) : Option α → Sexp
+  | none => .atom "none"
+  | some a => f a
+
+def trafo? : Sexp → Option (Option Trafo)
+  | .atom "none" => some none
+  | .atom "abs" => some (some .abs)
+  | .atom "square" => some (some .square)
+  | .list [.atom "affine", a, b] => do pure (some (.affine (← rat? a) (← rat? b)))
+  | _ => none
+
+def cfg? : Sexp → Option ChanCfg
+  | .list [c, t, a, o] => do
+    pure ⟨← optAtom? nat? c, ← trafo? t, ← rat? a, ← rat? o⟩
+  | _ => none
+
+/-- a waveform on the wire: `(dur ((chan (v0 v1 …)) …))`, `v_j` the voltage at `j / sample_rate` -/
+def wf? (sr : Rat) : Sexp → Option Wf
+  | .list [d, .list chans] => do
+    let d ← rat? d
+    let tab ← chans.mapM (pair? nat? rats?)
+    pure { dur := d
+           defined := fun ch => tab.any (fun p => p.1 == ch)
+           val := fun ch t =>
+             match tab.find? (fun p => p.1 == ch) with
+             | none => 0
+             | some p =>
+               let j := t * sr
+               if j.den = 1 ∧ 0 ≤ j.num then p.2.getD j.num.toNat 0 else 0 }
+  | _ => none
+
+/-- does the transmitted table cover every sample the model will ask for? -/
+def wfCovers (sr : Rat) : Sexp → Bool
+  | .list [d, .list chans] =>
+    match rat? d with
+    | some d => chans.all (fun c => match pair? nat? rats? c with
+        | some p => decide ((rne (d * sr)).toNat ≤ p.2.length)
+        | none => false)
+    | none => false
+  | _ => false
+
+def ofSampled (s : Sampled) : Sexp :=
+  .list [ofList (ofOpt (ofList ofRat)) s.channels, ofList (ofOpt (ofList ofBool)) s.markers]
+
+def sampled? : Sexp → Option Sampled
+  | .list [cs, ms] => do
+    pure ⟨← listOf? (optAtom? rats?) cs, ← listOf? (optAtom? (listOf? bool?)) ms⟩
+  | _ => none
+
+def swin? : Sexp → Option SWin := pair? int? int?
+def nwin? : Sexp → Option NWin := pair? nat? nat?
+def twin? : Sexp → Option (Rat × Rat) := pair? rat? rat?
+def ofSWin (w : SWin) : Sexp := .list [ofInt w.1, ofInt w.2]
+def ofNWin (w : NWin) : Sexp := .list [ofNat w.1, ofNat w.2]
+
+def ofShrink : Except Err (Bool × List NWin) → Sexp
+  | .error e => errS e
+  | .ok (s, out) => .list [.atom "ok", ofBool s, ofList ofNWin out]
+
+def ofAvg (xs : List (Option Rat)) : Sexp := ofList (ofOpt ofRat) xs
+
+/-- compare sampled data with a relative tolerance (`tol = 0`: equality) -/
+def closeRat (tol a b : Rat) : Bool :=
+  decide (rabs (a - b) ≤ tol * (if rabs b < 1 then 1 else rabs b))
+
+def closeSampled (tol : Rat) (a b : Sampled) : Bool :=
+  a.markers == b.markers && a.channels.length == b.channels.length &&
+  (a.channels.zip b.channels).all (fun p => match p.1, p.2 with
+    | none, none => true
+    | some x, some y => x.length == y.length && (x.zip y).all (fun q => closeRat tol q.1 q.2)
+    | _, _ => false)
+
 def handle : List Sexp → Sexp
-  | _ => Sexp.err "c20-not-implemented"
+  | [.atom "code", .atom variant, amp, off, r, vs] =>
+    match rat? amp, rat? off, int? r, rats? vs with
+    | some amp, some off, some r, some vs =>
+      let res : Except Err (List Int) := match variant with
+        | "np" => if r < 0 then .error .domain else codesNumpy amp off r.toNat vs
+        | "nb" => if r < 0 then .error .domain else codesNumba amp off r.toNat vs
+        | "wrap-np" => voltageToUint16 false amp off r vs
+        | _ => voltageToUint16 true amp off r vs
+      match res with
+      | .error e => errS e
+      | .ok cs => .list [.atom "ok", ofList ofInt cs]
+    | _, _, _, _ => Sexp.err "bad-args"
+  | [.atom "judge-code", amp, off, r, tol, vs, out] =>
+    match rat? amp, rat? off, nat? r, rat? tol, rats? vs with
+    | some amp, some off, some r, some tol, some vs =>
+      match out with
+      | .atom "error" => .list [.atom "judge", .atom (judgeCodes amp off r tol vs none)]
+      | o => match ints? o with
+        | some cs => .list [.atom "judge", .atom (judgeCodes amp off r tol vs (some cs))]
+        | none => Sexp.err "bad-args"
+    | _, _, _, _, _ => Sexp.err "bad-args"
+  | [.atom "times", sr, tol, durs] =>
+    match rat? sr, rat? tol, rats? durs with
+    | some sr, some tol, some durs =>
+      match sampleTimes sr tol durs with
+      | .error e => errS e
+      | .ok (ts, ns) => .list [.atom "ok", ofList ofRat ts, ofList ofInt ns]
+    | _, _, _ => Sexp.err "bad-args"
+  | [.atom "sample", sr, tol, cfgs, marks, wfs] =>
+    match rat? sr, rat? tol, listOf? cfg? cfgs, listOf? (optAtom? nat?) marks with
+    | some sr, some tol, some cfgs, some marks =>
+      match wfs with
+      | .list ws =>
+        if !ws.all (wfCovers sr) then Sexp.err "table-too-short" else
+        match ws.mapM (wf? sr) with
+        | some wfs =>
+          match sampleWaveforms sr tol cfgs marks wfs with
+          | .error e => errS e
+          | .ok out => .list [.atom "ok", ofList ofSampled out]
+        | none => Sexp.err "bad-args"
+      | _ => Sexp.err "bad-args"
+    | _, _, _, _ => Sexp.err "bad-args"
+  | [.atom "judge-sample", sr, jtol, cfgs, marks, wfs, out] =>
+    match rat? sr, rat? jtol, listOf? cfg? cfgs, listOf? (optAtom? nat?) marks, listOf? sampled? out with
+    | some sr, some jtol, some cfgs, some marks, some out =>
+      match wfs with
+      | .list ws =>
+        if !ws.all (wfCovers sr) then Sexp.err "table-too-short" else
+        match ws.mapM (wf? sr) with
+        | some wfs =>
+          let want := sampleSpec sr cfgs marks wfs
+          let ok := want.length == out.length && (out.zip want).all (fun p => closeSampled jtol p.1 p.2)
+          .list [.atom "judge", .atom (if ok then "ok" else "not-the-formula")]
+        | none => Sexp.err "bad-args"
+      | _ => Sexp.err "bad-args"
+    | _, _, _, _, _ => Sexp.err "bad-args"
+  | [.atom "w2s", .atom variant, sr, ws] =>
+    match rat? sr, listOf? twin? ws with
+    | some sr, some ws =>
+      match (if variant == "np" then w2sNumpy sr ws else w2sNumba sr ws) with
+      | .error e => errS e
+      | .ok out => .list [.atom "ok", ofList ofSWin out]
+    | _, _ => Sexp.err "bad-args"
+  | [.atom "judge-w2s", sr, ws, out] =>
+    match rat? sr, listOf? twin? ws, listOf? swin? out with
+    | some sr, some ws, some out =>
+      .list [.atom "judge", .atom (
+        if ¬ out.Perm (ws.map (conv sr)) then "not-the-rounded-windows"
+        else if w2sSpecB sr ws out then "ok" else "not-ordered-by-begin")]
+    | _, _, _ => Sexp.err "bad-args"
+  | [.atom "shrink", .atom variant, ws] =>
+    match listOf? nwin? ws with
+    | some ws => ofShrink (match variant with
+        | "np" => shrinkNumpy ws
+        | "np-pinned" => shrinkNumpyPinned ws
+        | _ => shrinkNumba ws)
+    | none => Sexp.err "bad-args"
+  | [.atom "judge-shrink", ws, out] =>
+    match listOf? nwin? ws, listOf? nwin? out with
+    | some ws, some out =>
+      .list [.atom "judge", .atom (
+        if out.map NWin.stop ≠ ws.map NWin.stop then "end-moved"
+        else if shrinkSpecB ws out then "ok" else "not-disjoint")]
+    | _, _ => Sexp.err "bad-args"
+  | [.atom "average", .atom variant, time, values, ws] =>
+    match rats? time, rats? values, listOf? twin? ws with
+    | some time, some values, some ws =>
+      let res : Except Err (List (Option Rat)) := match variant with
+        | "np" => .ok (averageNumpy time values ws)
+        | "nb" => .ok (averageNumba time values ws)
+        | "spec" => .ok (averageSpec time values ws)
+        | "wrap-np" => averageWindows false time values ws
+        | _ => averageWindows true time values ws
+      match res with
+      | .error e => errS e
+      | .ok out => .list [.atom "ok", ofAvg out,
+          .atom (if InKnownClassPF23 ws then "in-class-PF-23" else "outside-class")]
+    | _, _, _ => Sexp.err "bad-args"
+  | _ => Sexp.err "c20-unknown-request"
 
 end QP.C20
